@@ -262,18 +262,18 @@ func init() {
 	})
 	regHarness("vGid", func(m *Machine, fr *frame, a []Value) Value { return MkBV(64, uint64(m.cur.id)) })
 	regHarness("vAtomicBegin", func(m *Machine, fr *frame, a []Value) Value {
-		m.cur.atomicDepth++
+		m.cur.atomicExplicit++
 		return nil
 	})
 	regHarness("vAtomicEnd", func(m *Machine, fr *frame, a []Value) Value {
-		m.cur.atomicDepth--
+		m.cur.atomicExplicit--
 		return nil
 	})
 	regHarness("vBlockUntil", func(m *Machine, fr *frame, a []Value) Value {
 		fn := a[0]
 		m.blockUntil("vBlockUntil", func() bool {
-			m.cur.atomicDepth++
-			defer func() { m.cur.atomicDepth-- }()
+			m.cur.atomicExplicit++
+			defer func() { m.cur.atomicExplicit-- }()
 			return m.branch(m.call(fr, 0, fn, nil).(*Term))
 		})
 		return nil
